@@ -23,6 +23,9 @@
  *                descriptors; the code under test treats it as an error (EPIPE / OUT_OF_BOUNDS).  The
  *                component tie injects it on request (zero_at) to validate exactly that error path.
  *   failure      -1/EIO without issuing the call, only on request (fail_at), component tie only.
+ *   EAGAIN       -1/EAGAIN without issuing the call, only on request (eagain_at[], eagain_on),
+ *                component tie only: what a descriptor in O_NONBLOCK mode answers when it has
+ *                nothing to deliver / no room right now.  Logged as its own outcome ("=A").
  * Requests of 0 bytes are passed through untouched.  fd 2 is never touched.
  */
 #define _GNU_SOURCE
@@ -35,7 +38,7 @@
 
 #include "shim_io.h"
 
-static struct shim_cfg cfg = { 0, 0, 0, 4, -1, -1, 0 };
+static struct shim_cfg cfg = { 0, 0, 0, 4, -1, -1, 0, 0, { -1, -1, -1 }, 0 };
 static unsigned long call_index;
 static int burst_left;
 
@@ -48,7 +51,7 @@ static uint64_t mix(uint64_t x)
 }
 
 /* decision for call number idx with request req: returns the count to issue, or 0 = EINTR,
- * -1 = fail, -2 = return zero */
+ * -1 = fail, -2 = return zero, -3 = EAGAIN */
 static long decide(unsigned long idx, size_t req, int is_write)
 {
 	uint64_t r = mix(cfg.seed * 0x100000001B3ull + idx);
@@ -57,6 +60,13 @@ static long decide(unsigned long idx, size_t req, int is_write)
 
 	if (cfg.fail_at >= 0 && (long)idx == cfg.fail_at)
 		return -1;
+	if (cfg.eagain_on) {
+		int i;
+		for (i = 0; i < 3; ++i) {
+			if (cfg.eagain_at[i] >= 0 && (long)idx == cfg.eagain_at[i])
+				return -3;
+		}
+	}
 	if (cfg.zero_at >= 0 && (long)idx == cfg.zero_at && is_write)
 		return -2;
 	if (burst_left > 0) {
@@ -231,6 +241,11 @@ __attribute__((destructor)) static void shim_fini(void)
 		LOG(kind, fd, count, off, 0, 0);                             \
 		return 0;                                                    \
 	}                                                                    \
+	if (n == -3) {                                                       \
+		LOG(kind, fd, count, off, -1, EAGAIN);                       \
+		errno = EAGAIN;                                              \
+		return -1;                                                   \
+	}                                                                    \
 	ret = CALL_N;                                                        \
 	e = errno;                                                           \
 	LOG(kind, fd, count, off, (long)ret, ret < 0 ? e : 0);               \
@@ -274,6 +289,11 @@ int WRAP(ftruncate)(int fd, off_t length)
 	if (n == -1) {
 		LOG('t', fd, (size_t)1, (long long)length, -1, EIO);
 		errno = EIO;
+		return -1;
+	}
+	if (n == -3) {
+		LOG('t', fd, (size_t)1, (long long)length, -1, EAGAIN);
+		errno = EAGAIN;
 		return -1;
 	}
 	ret = REAL(ftruncate)(fd, length);
